@@ -297,7 +297,15 @@ def fam_bitfield(ctx):
     return {"must_report": ["ST.bits|pack_fields_bad"], "must_not_report": ["ST.bits|pack_fields_ok", "ST.bits|unpack_fields_ok"]}
 
 
-FAMILIES = {"bitfield": fam_bitfield, "drop": fam_drop, "stale": fam_stale, "dirty": fam_dirty, "recursion": fam_recursion, "bounds": fam_bounds, "errflow": fam_errflow, "fold": fam_fold, "readloop": fam_readloop, "lock": fam_lock, "gate": fam_gate, "publish": fam_publish, "taint": fam_taint, "panic": fam_panic, "loop": fam_loop, "slice": fam_slice}
+def fam_names(ctx):
+    from . import siblingfield
+    hits = {i: bool(siblingfield.mixups(ctx.prog, body(ctx, i))) for i in ("sibling_sizes_ok", "sibling_sizes_bad")}
+    for i, h in hits.items():
+        (ctx.bad if h else ctx.ok)("ST.names", [i], "sibling fields mixed up" if h else "silent", body(ctx, i).loc())
+    return {"must_report": ["ST.names|sibling_sizes_bad"], "must_not_report": ["ST.names|sibling_sizes_ok"]}
+
+
+FAMILIES = {"names": fam_names, "bitfield": fam_bitfield, "drop": fam_drop, "stale": fam_stale, "dirty": fam_dirty, "recursion": fam_recursion, "bounds": fam_bounds, "errflow": fam_errflow, "fold": fam_fold, "readloop": fam_readloop, "lock": fam_lock, "gate": fam_gate, "publish": fam_publish, "taint": fam_taint, "panic": fam_panic, "loop": fam_loop, "slice": fam_slice}
 
 
 def for_families(names):
